@@ -45,5 +45,7 @@ func (f *TwoWayStreamOutputStream) Call(s *slip.Scope, args slip.List, depth int
 	if !ok {
 		slip.TypePanic(s, depth, "two-way-stream", args[0], "two-way-stream")
 	}
-	return es.Output.(slip.Object)
+	obj, _ := es.Output.(slip.Object) // nil once the stream is closed
+
+	return obj
 }
